@@ -91,6 +91,22 @@ the committed quick tier of their own property. The recurring blind spots:
   rarely used node kind in every well-typed argument position (C12), handlers attached
   after the first visit (C16), AST well-formedness of the returned node (C10), the nesting
   ORDER of unary-like operators over the same leaves (C09).
+* *Wave 12* (40 changes on the tree of wave 11, 23 reported at once, 17 misses, all closed): concatenation through `add` - the
+  library's own tests pin `'donut' add 'tello'`, the typed grammar had `add` on numbers only; R-EVAL now concatenates two strings, C03
+  has a `string-add` layer (an operand swap "for commutative operators" is invisible on numbers) and C02's turned up a genuine defect
+  (finding `django:string-add-not-concatenation`); a second mapped class with the SAME class name in another registry (a memo keyed by
+  `Model.__name__`; C03 `same-named-models`); runs of 63-400 operands joined by one operator at the root, negated, parenthesised (a
+  rebalancing threshold; C05 `long-runs`) and a minus over a literal that carries its own sign (C05); 16/17/33/65/257-long runs of one
+  metacharacter (a replacement with a count argument; C07); list members that repeat or render alike (de-duplication on the rendered
+  text; C09 `repeated-list-members`) and field names outside ASCII, with the Athena spelling taken from an independent statement of the
+  documented rule instead of the library's own helper - C07's field layer had used `clean_athena_identifier` as its oracle (C07, C09);
+  a named parameter repeated in one call and namespaces spelled `true.` / `null.` (C11); `x gt null` that is translated at all must
+  still be an ordering comparison, and unconvertible dates / numbers / durations as MEMBERS of a one-kind list (C12); a base query whose
+  root entity is an alias and filters that use a relationship as a value - this exposed a defect of the unchanged tree, repaired in
+  `9038818` (C15); trees that differ only in a qualifier and strings made of quotes, where building a node from its fields must keep
+  the fields - formerly a harness assertion, now the verdict `constructor-changed-fields` (C16); blanks, tabs and newlines INSIDE
+  literals under every layout (C19); a lambda variable called like the relationship its body navigates (C04). `C04-w12B` only shows
+  with a pre-joined base query and is reported by C15, whose quantifier it belongs to.
 * *Wave 11* (two changes per agent on the final tree, 38 kept, 21 reported at once; two discarded - one disputed the semantics of
   the property, one had a demonstration that did not fail): the 17 misses again named missing *values and shapes*, and one harness
   weakness. In-lists whose members are floats / mixed numbers and a date-time at exactly midnight (typed leaves and the database
